@@ -8,8 +8,8 @@ from fractions import Fraction as F
 from core import Case
 
 PROP = 'C14'
-COQ_TARGETS = ['theories/DeferredFacts.vo', 'theories/SchedFacts.vo', 'theories/SchedThms.vo', 'theories/SchedPassive.vo', 'theories/SchedOrder.vo', 'theories/SchedRun.vo', 'theories/SchedC14.vo']
-COQ_IMPORTS = 'From Bac Require Import Base Deferred Sched.'
+COQ_TARGETS = ['theories/SchedIv.vo', 'theories/SchedIvFacts.vo', 'theories/DeferredExnFacts.vo', 'theories/DeferredFacts.vo', 'theories/SchedFacts.vo', 'theories/SchedThms.vo', 'theories/SchedPassive.vo', 'theories/SchedOrder.vo', 'theories/SchedRun.vo', 'theories/SchedC14.vo']
+COQ_IMPORTS = 'From Bac Require Import Base Deferred Sched SchedIv.'
 RULE_BASE = ('cases: one case = the whole observable outcome (event trace of fire/call/raise/API-error, heap in pop order with '
         'counters, isScheduled/taskTime of every task, deferredFns) of a history run on the real TaskManager under a virtual '
         'clock and on the model.  (A) every op sequence of length <= 3 (quick) / <= 4 plus 30% of length 5 (thorough) over 2 one-shot tasks and a '
@@ -36,6 +36,15 @@ TICKS_PER_S = 3 * 10 ** 6        # family B: 1 tick = 1/3 us, so 1/3 s and 0.1 s
 JIT_B = 3
 
 
+def ctor_attrs(kind):
+    """(interval, offset) in ticks handed to the RecurringTask constructor; None = not given.  The 3-tuple
+    ('rec', iv, off) hands over the offset only when it is non-zero; ('rec', iv, off, 'x') hands over exactly
+    what it says (interval None, offset None, offset 0)"""
+    if len(kind) > 3:
+        return kind[1], kind[2]
+    return kind[1], (kind[2] if kind[2] else None)
+
+
 def acts_of(x):
     """scheduling actions of a task config (kind, raises, defers[, acts]) or of a deferred function
     (id, raises, spawns[, acts])"""
@@ -51,6 +60,8 @@ class Ref:
         self.now, self.ctr, self.heap = 0, 0, []
         self.sched, self.ttime, self.dq = {}, {}, []
         self.ev = []
+        # taskInterval / taskIntervalOffset of the recurring tasks (attributes: install_task(interval=, offset=) overwrites them)
+        self.ivs = {i: list(ctor_attrs(k[0])) for i, k in enumerate(cfg) if k[0][0] == 'rec'}
 
     def kind(self, i):
         return self.cfg[i][0]
@@ -95,8 +106,9 @@ class Ref:
         return None
 
     def rec_install(self, i):
-        _, iv, off = self.kind(i)
-        if iv <= 0:
+        iv, off = self.ivs[i]
+        off = off or 0
+        if iv is None or iv <= 0:
             return 15
         x = self.now + self.jit - off
         self.ttime[i] = x + iv - x % iv + off
@@ -107,6 +119,13 @@ class Ref:
             return 8
         self.ttime[i] = t
         return self.tm_install(i)
+
+    def install_iv(self, i, iv, off):
+        if self.kind(i)[0] != 'rec':
+            return 8
+        if iv is not None: self.ivs[i][0] = iv
+        if off is not None: self.ivs[i][1] = off
+        return self.rec_install(i)
 
     def reinstall(self, i):
         if self.kind(i)[0] == 'rec':
@@ -183,6 +202,7 @@ class Ref:
         k = o[0]
         err = None
         if k in ('install', 'after', 'reinstall', 'suspend', 'resume'): err = self.do_act(o)
+        elif k == 'installiv': err = self.install_iv(o[1], o[2], o[3])
         elif k == 'advance': self.now += o[1]
         elif k == 'todue':
             if self.heap: self.now = max(self.now, self.heap[0][0])
@@ -203,6 +223,77 @@ class Ref:
 # ------------------------------------------------------------------ implementation driver
 class Boom(Exception):
     pass
+
+
+class BoomStr(Exception):
+    """an exception that cannot be printed"""
+    def __str__(self):
+        raise RuntimeError('str() of this exception fails')
+    __repr__ = __str__
+
+
+class _Unprintable(object):
+    def __str__(self):
+        raise RuntimeError('unprintable argument')
+    __repr__ = __str__
+
+
+class BoomInit(Exception):
+    """__init__ with its own signature that does not pass anything on (args is still what the caller gave)"""
+    def __init__(self, code, detail=None):
+        self.code, self.detail = code, detail
+
+
+class BoomNoArgsAttr(Exception):
+    """args emptied after construction"""
+    def __init__(self, *a):
+        Exception.__init__(self, *a)
+        self.args = ()
+
+
+# the exception VALUES a raising callback may produce (subclasses of Exception: KeyboardInterrupt / SystemExit are
+# control flow for the loops, not failures of a callback).  What varies: the class (library / builtin / raised by
+# the interpreter), the number of arguments (none, one, several), their types, whether the value can be printed.
+XSHAPES = ('msg', 'noargs', 'bare-class', 'assert-no-message', 'zerodivision', 'keyerror', 'valueerror-noargs', 'two-args',
+           'oserror-errno', 'empty-string', 'empty-tuple-arg', 'stopiteration-noargs', 'str-raises', 'arg-unprintable',
+           'unicode-5-args', 'indexerror', 'own-init', 'args-emptied', 'none-arg', 'assert-message', 'runtimeerror-noargs',
+           'exception-noargs', 'chained', 'in-except-block')
+
+
+def raise_shape(shape, label):
+    if shape == 'msg': raise Boom(label)
+    if shape == 'noargs': raise Boom()
+    if shape == 'bare-class': raise Boom
+    if shape == 'assert-no-message': assert label is None
+    if shape == 'zerodivision': 1 // 0
+    if shape == 'keyerror': {}[label]
+    if shape == 'valueerror-noargs': raise ValueError()
+    if shape == 'two-args': raise Boom(7, label)
+    if shape == 'oserror-errno': raise OSError(2, label)
+    if shape == 'empty-string': raise Boom('')
+    if shape == 'empty-tuple-arg': raise Boom(())
+    if shape == 'stopiteration-noargs': raise StopIteration()
+    if shape == 'str-raises': raise BoomStr(label)
+    if shape == 'arg-unprintable': raise Boom(_Unprintable())
+    if shape == 'unicode-5-args': u'\u20ac'.encode('ascii')
+    if shape == 'indexerror': [][0]
+    if shape == 'own-init': raise BoomInit(3)
+    if shape == 'args-emptied': raise BoomNoArgsAttr(label)
+    if shape == 'none-arg': raise Boom(None)
+    if shape == 'assert-message': assert label is None, label
+    if shape == 'runtimeerror-noargs': raise RuntimeError
+    if shape == 'exception-noargs': raise Exception()
+    if shape == 'chained':
+        try:
+            raise Boom()
+        except Boom as e:
+            raise TypeError() from e
+    if shape == 'in-except-block':
+        try:
+            [][0]
+        except IndexError:
+            raise Boom()
+    raise ValueError(shape)
 
 
 class _Watchdog(BaseException):
@@ -273,10 +364,11 @@ class Impl:
     """The real TaskManager + core loops under a virtual clock.  `tf` maps model ticks to the float
     handed to the library."""
 
-    def __init__(self, cfg, tf=float, pre=(), kshift=0):
+    def __init__(self, cfg, tf=float, pre=(), kshift=0, xshift=None):
         import bacpypes.task as task, bacpypes.core as core
         self.task, self.core, self.tf = task, core, tf
         self.kshift = kshift
+        self.xshift = xshift        # None: every raising callback raises Boom('<who>'); n: the shape of callback k is XSHAPES[(k + n) % len]
         self.NOW = [0.0]
         self.trace = []
         self.submitted = []          # ids in the order core.deferred was called
@@ -326,9 +418,8 @@ class Impl:
             kind = t[0]
             if kind[0] == 'rec':
                 # interval / offset are handed over in milliseconds, as floats
-                iv_ms = float(F(kind[1] * 1000, self.ticks_per_s))
-                off_ms = float(F(kind[2] * 1000, self.ticks_per_s)) if kind[2] else None
-                self.tasks.append(HRec(i, iv_ms, off_ms))
+                civ, coff = ctor_attrs(kind)
+                self.tasks.append(HRec(i, self.ms(civ), self.ms(coff)))
             else:
                 self.tasks.append(HOne(i))
         # operations issued before a TaskManager exists go to task._unscheduled_tasks
@@ -342,6 +433,32 @@ class Impl:
         self.tm = task.TaskManager()
 
     ticks_per_s = TICKS_PER_S
+
+    def ms(self, ticks):
+        """ticks -> the float number of milliseconds handed to the RecurringTask API (None stays None)"""
+        return None if ticks is None else float(F(ticks * 1000, self.ticks_per_s))
+
+    def attr_ticks(self, i):
+        """taskInterval / taskIntervalOffset of a recurring task in ticks (None = unset), None for other tasks"""
+        t = self.tasks[i]
+        if not hasattr(t, 'taskInterval'):
+            return None
+        return tuple(None if v is None else int(round(F(v) * self.ticks_per_s / 1000)) for v in (t.taskInterval, t.taskIntervalOffset))
+
+    def throw(self, who, k):
+        label = '%s %d' % (who, k)
+        if self.xshift is None:
+            raise Boom(label)
+        raise_shape(XSHAPES[(k + self.xshift + (5 if who == 'task' else 0)) % len(XSHAPES)], label)
+
+    def loop(self, fn):
+        """a library loop under the watchdog; an exception that comes out of it is recorded"""
+        def body():
+            try:
+                fn()
+            except Exception as e:
+                self.trace.append(('escape', type(e).__name__))
+        guarded_loop(body)
 
     def clock(self):
         # core.run is stopped at the top of an iteration only (the read made by get_next_task), never by the
@@ -359,7 +476,7 @@ class Impl:
             self.submit(d)
         self.do_acts(acts_of(self.cfg[t.i]))
         if self.cfg[t.i][1]:
-            raise Boom('task %d' % t.i)
+            self.throw('task', t.i)
 
     def do_acts(self, acts):
         """the scheduling actions of a callback, through the _Task API; an exception propagates"""
@@ -423,7 +540,7 @@ class Impl:
             self.submit(s)
         self.do_acts(acts_of(d))
         if d[1]:
-            raise Boom('deferred %d' % d[0])
+            self.throw('deferred', d[0])
 
     def api(self, fn):
         from pyerr import exc_code
@@ -438,6 +555,7 @@ class Impl:
         if k == 'install': self.api(lambda: T[o[1]].install_task(when=self.tf(o[2])))
         elif k == 'after': self.api(lambda: T[o[1]].install_task(delta=self.tf(o[2])))
         elif k == 'reinstall': self.api(lambda: T[o[1]].install_task())
+        elif k == 'installiv': self.api(lambda: T[o[1]].install_task(interval=self.ms(o[2]), offset=self.ms(o[3])))
         elif k == 'suspend': self.api(lambda: T[o[1]].suspend_task())
         elif k == 'resume': self.api(lambda: T[o[1]].resume_task())
         elif k == 'advance':
@@ -456,17 +574,17 @@ class Impl:
                         tm.process_task(task)
                     except Exception:
                         self.trace.append(('raise',))
-            guarded_loop(poll)
+            self.loop(poll)
         elif k == 'defer': self.submit(o[1])
         elif k == 'burn':
             t, w = T[o[1]], self.tf(o[2])
             for _ in range(o[3]):
                 t.install_task(when=w)
-        elif k == 'runonce': guarded_loop(self.core.run_once)
+        elif k == 'runonce': self.loop(self.core.run_once)
         elif k == 'run':
             self.in_run = True
             try:
-                guarded_loop(lambda: self.core.run(spin=0.0, sigterm=None, sigusr1=None))
+                self.loop(lambda: self.core.run(spin=0.0, sigterm=None, sigusr1=None))
             finally:
                 self.in_run = False
         else:
@@ -505,6 +623,7 @@ def canon_outcome(trace, heap, ctr, now, tasks, dqids, ct, showclock):
         elif e[0] == 'call': out += [2, e[1]]
         elif e[0] == 'raise': out += [3]
         elif e[0] == 'err': out += [4, e[1]]
+        elif e[0] == 'escape': out += [5]            # an exception came out of run_once / run: the model has no such event
     out.append(len(heap))
     for (w, n, i) in heap:
         out += [ct(i, w, 'due'), n, i]
@@ -603,9 +722,10 @@ def boundary_histories():
     return out
 
 
-def impl_outcome(cfg, ops, mode, pre=(), kshift=0):
-    """mode: 'int' (clock in whole seconds = ticks), 'tick' (1/3 us ticks), 'slot' (same, shown as slot indices)"""
-    im = Impl(cfg, tf_of(mode), pre=pre, kshift=kshift)
+def impl_outcome(cfg, ops, mode, pre=(), kshift=0, xshift=None, attrs=False):
+    """mode: 'int' (clock in whole seconds = ticks), 'tick' (1/3 us ticks), 'slot' (same, shown as slot indices);
+    attrs: the outcome is followed by taskInterval / taskIntervalOffset of every task (ticks)"""
+    im = Impl(cfg, tf_of(mode), pre=pre, kshift=kshift, xshift=xshift)
     try:
         for o in ops:
             im.step(o)
@@ -615,11 +735,21 @@ def impl_outcome(cfg, ops, mode, pre=(), kshift=0):
         return [99], im
     ct = ct_int if mode == 'int' else ct_fine if mode == 'fine' else ct_finer if mode == 'finer' else ct_tick if mode == 'tick' else make_ct_slot(cfg)
     tasks = [(t.isScheduled, t.taskTime) for t in im.tasks]
-    return canon_outcome(im.trace, im.heap_sorted(), im.counter_value(), im.NOW[0], tasks, im.pending_ids(), ct,
-                         mode != 'slot'), im
+    out = canon_outcome(im.trace, im.heap_sorted(), im.counter_value(), im.NOW[0], tasks, im.pending_ids(), ct, mode != 'slot')
+    if attrs:
+        out += canon_attrs([im.attr_ticks(i) for i in range(len(cfg))])
+    return out, im
 
 
-def ref_outcome(cfg, ops, mode, jit, guard=True):
+def canon_attrs(al):
+    out = []
+    for a in al:
+        for v in (a or (None, None)):
+            out += [0] if v is None else [1, v]
+    return out
+
+
+def ref_outcome(cfg, ops, mode, jit, guard=True, attrs=False):
     r = Ref(cfg, jit, guard)
     for o in ops:
         r.step(o)
@@ -632,7 +762,10 @@ def ref_outcome(cfg, ops, mode, jit, guard=True):
         def ct(i, x, what, due=None):
             return x
     tasks = [(bool(r.sched.get(i)), r.ttime.get(i)) for i in range(len(cfg))]
-    return canon_outcome(r.ev, r.heap, r.ctr, r.now, tasks, [d[0] for d in r.dq], ct, mode != 'slot'), r
+    out = canon_outcome(r.ev, r.heap, r.ctr, r.now, tasks, [d[0] for d in r.dq], ct, mode != 'slot')
+    if attrs:
+        out += canon_attrs([r.ivs.get(i) for i in range(len(cfg))])
+    return out, r
 
 
 # ------------------------------------------------------------------ Coq syntax
@@ -662,7 +795,7 @@ def coq_cfg(cfg):
     ts = []
     for t in cfg:
         kind, raises, defers = t[0], t[1], t[2]
-        k = 'OneShot' if kind[0] == 'one' else '(Recurring %s %s)' % (zc(kind[1]), zc(kind[2]))
+        k = 'OneShot' if kind[0] == 'one' else '(Recurring %s %s)' % (zc(kind[1] or 0), zc(kind[2] or 0))
         ts.append('mkT %s %s [%s] %s' % (k, 'true' if raises else 'false', ';'.join(coq_dfn(d) for d in defers), coq_acts(acts_of(t))))
     return '[' + ';'.join(ts) + ']'
 
@@ -705,6 +838,29 @@ def coq_run(cfg, ops, mode, jit):
         tc, 'false' if mode == 'slot' else 'true', len(cfg), zc(jit), coq_cfg(cfg), coq_ops(ops))
 
 
+def coq_oz(v):
+    return 'None' if v is None else '(Some %s)' % zc(v)
+
+
+def coq_op2(o):
+    if o[0] == 'installiv':
+        return 'InstallIv %d %s %s' % (o[1], coq_oz(o[2]), coq_oz(o[3]))
+    return 'Plain (%s)' % coq_op(o)
+
+
+def coq_run2(cfg, ops, jit):
+    """SchedIv.v: interval / offset are attributes; the constructor arguments are the initial attributes"""
+    ctor = ';'.join('(%s, %s)' % tuple(coq_oz(v) for v in (ctor_attrs(k[0]) if k[0][0] == 'rec' else (None, None))) for k in cfg)
+    return 'canon_run2 %d (run_ops2 true %s %s (attrs0 [%s], st0) [%s])' % (
+        len(cfg), zc(jit), coq_cfg(cfg), ctor, ';'.join(coq_op2(o) for o in ops))
+
+
+def mk_case2(kind, cfg, ops, jit):
+    exp, _ = impl_outcome(cfg, ops, 'tick', attrs=True)
+    return Case(kind, coq_run2(cfg, ops, jit), exp, key=(repr(cfg), repr(ops), 'attrs'),
+                nontrivial=nontrivial(exp), desc=desc_of(cfg, ops, 'tick'))
+
+
 def desc_of(cfg, ops, mode):
     return {'cfg': repr(cfg), 'ops': repr(ops), 'mode': mode}
 
@@ -718,15 +874,20 @@ def nontrivial(out):
         tag = out[i]
         if tag in (1, 2):
             return True
-        i += {3: 1, 4: 2}[tag]
+        i += {3: 1, 4: 2, 5: 1}[tag]
         k += 1
     return False
 
 
-def mk_case(kind, cfg, ops, mode, jit, kshift=0):
-    exp, _ = impl_outcome(cfg, ops, mode, kshift=kshift)
-    return Case(kind, coq_run(cfg, ops, mode, jit), exp, key=(repr(cfg), repr(ops), mode),
-                nontrivial=nontrivial(exp), desc=desc_of(cfg, ops, mode))
+def mk_case(kind, cfg, ops, mode, jit, kshift=0, xshift=None):
+    exp, _ = impl_outcome(cfg, ops, mode, kshift=kshift, xshift=xshift)
+    d = desc_of(cfg, ops, mode)
+    if kshift:
+        d['kshift'] = kshift
+    if xshift is not None:
+        d['xshift'] = xshift
+    return Case(kind, coq_run(cfg, ops, mode, jit), exp, key=(repr(cfg), repr(ops), mode, kshift, xshift),
+                nontrivial=nontrivial(exp), desc=d)
 
 
 ONE = (('one',), False, ())
@@ -923,6 +1084,269 @@ def gen_recurring(rng, epoch, nops=30, with_acts=False):
         if not heap_safe():
             return None
     return cfg, ops
+
+
+# ---- (R) installation histories of recurring tasks: interval / offset given to the constructor, at install time,
+#      again with / without new values, while pending or suspended, refused values
+def boundary_safe_dyn(ivs, t, owner=None):
+    """boundary_safe for the attributes in force (i -> [interval, offset], None = unset)"""
+    for i, (iv, off) in ivs.items():
+        if iv is None or iv <= 0:
+            continue
+        off = off or 0
+        m0 = (t - off) % iv
+        if i == owner and m0 == 0:
+            continue
+        for m in (m0, (t + JIT_B - off) % iv):
+            if m < MARGIN or iv - m < MARGIN:
+                return False
+    return True
+
+
+def gen_recurring_R(rng, nops=26):
+    """returns (cfg, ops) or None (a clock reading too close to a slot boundary / foreign due time)"""
+    nt = rng.choice([1, 1, 2, 2, 3])
+
+    def pick_iv():
+        return int(rng.choice(IV_GRID_MS[:7] + IV_GRID_MS[8:]) * TICKS_PER_S / 1000)
+
+    def pick_off(iv):
+        iv = iv if iv and iv > 0 else 300000
+        return rng.choice([0, iv // 3, iv // 2, iv - 3000, rng.randrange(iv), iv + iv // 3])
+    cfg = []
+    for i in range(nt):
+        if i > 0 and rng.random() < 0.2:
+            cfg.append((('one',), False, ()))
+            continue
+        iv = None if rng.random() < 0.3 else pick_iv()
+        off = rng.choice([None, None, 0, pick_off(iv)])
+        cfg.append((('rec', iv, off, 'x'), rng.random() < 0.05, ()))
+    base = rng.choice(BASES_SMALL) * TICKS_PER_S + rng.randrange(TICKS_PER_S)
+    ref = Ref(cfg, JIT_B)
+    ops = []
+
+    def safe_now(t, todue=False, ivs=None):
+        owner = ref.heap[0][2] if todue and ref.heap and ref.heap[0][0] == t else None
+        for (w, n, i) in ref.heap:
+            if i != owner and abs(w - t) < MARGIN:
+                return False
+        return boundary_safe_dyn(ivs or ref.ivs, t, owner)
+
+    def heap_safe():
+        hs = ref.heap
+        return all(abs(hs[a][0] - hs[b][0]) >= MARGIN for a in range(len(hs)) for b in range(a + 1, len(hs)))
+
+    def push(o):
+        ops.append(o)
+        ref.step(o)
+
+    if not safe_now(base):
+        return None
+    push(('advance', base, base))
+    for _ in range(nops):
+        r = rng.random()
+        i = rng.randrange(nt)
+        one = cfg[i][0][0] == 'one'
+        if r < 0.30:
+            if one:
+                push(rng.choice([('install', i, ref.now + rng.randrange(0, 3 * TICKS_PER_S)), ('installiv', i, 300000, None)]))
+            else:
+                # install_task(interval=, offset=): new values, the old ones again, only one of the two, refused ones
+                cur = ref.ivs[i]
+                iv = rng.choice([None, None, pick_iv(), pick_iv(), cur[0], 0 if rng.random() < 0.3 else pick_iv(), -3000 if rng.random() < 0.2 else pick_iv()])
+                off = rng.choice([None, None, 0, 0, cur[1], pick_off(iv if iv and iv > 0 else cur[0])])
+                new = dict(ref.ivs)
+                new[i] = [cur[0] if iv is None else iv, cur[1] if off is None else off]
+                if not safe_now(ref.now, ivs=new):
+                    continue
+                push(('installiv', i, iv, off))
+        elif r < 0.38: push(('reinstall', i))
+        elif r < 0.46: push(('suspend', i))
+        elif r < 0.52: push(('resume', i))
+        elif r < 0.74:
+            if ref.heap and not safe_now(max(ref.now, ref.heap[0][0]), todue=True):
+                return None
+            push(('todue',))
+            push(rng.choice([('poll',), ('runonce',), ('poll',), ('run',)]))
+        elif r < 0.90:
+            d = rng.choice([rng.randrange(1, 3000), rng.randrange(1, 4 * TICKS_PER_S), rng.randrange(1, 200) * 30000])
+            tgt = ref.now + d
+            if not safe_now(tgt):
+                return None
+            push(('advance', d, tgt))
+            push(rng.choice([('poll',), ('runonce',), ('run',)]))
+        else:
+            push(rng.choice([('poll',), ('runonce',)]))
+        if not heap_safe():
+            return None
+    return cfg, ops
+
+
+def recurring_R_grid():
+    """every way of giving the interval (constructor / first install / a later install while pending / after a suspend /
+    after a suspend + resume / twice in a row) x every way of giving the offset (never, constructor, constructor 0, install,
+    reset to 0 at a later install), each followed by four on-time firings, a late one and a suspend"""
+    A, B = 300000, 750000            # 0.1 s and 0.25 s in ticks
+    out = []
+    fire = [('todue',), ('poll',)]
+    for civ in (None, A):
+        for coff in (None, 0, 30000):
+            for first in ((None, None), (A, None), (B, None), (B, 60000), (None, 60000), (A, 0)):
+                for later in (None, (None, None), (B, None), (A, None), (None, 90000), (None, 0), (B, 0), (A, 45000)):
+                    for between in ((), (('suspend', 0),), (('suspend', 0), ('resume', 0)), (('reinstall', 0),)):
+                        if later is None and between:
+                            continue
+                        cfg = [(('rec', civ, coff, 'x'), False, ())]
+                        ops = [('advance', 777, 777), ('installiv', 0, first[0], first[1])] + fire * 2
+                        if later is not None:
+                            ops += list(between) + [('installiv', 0, later[0], later[1])] + fire * 3
+                        ops += [('advance', 1000000, None), ('runonce',)] + fire + [('suspend', 0), ('advance', 3100777, None), ('runonce',)]
+                        # absolute targets for the two late advances, margins checked on the port of the model
+                        ref, fixed, ok = Ref(cfg, JIT_B), [], True
+                        for o in ops:
+                            if o[0] == 'advance' and o[2] is None:
+                                o = ('advance', o[1], ref.now + o[1])
+                            if o[0] == 'advance' and not (boundary_safe_dyn(ref.ivs, o[2]) and all(abs(w - o[2]) >= MARGIN for (w, n, i) in ref.heap)):
+                                ok = False
+                            if o[0] == 'installiv':
+                                cur = ref.ivs[0]
+                                new = {0: [cur[0] if o[2] is None else o[2], cur[1] if o[3] is None else o[3]]}
+                                if not boundary_safe_dyn(new, ref.now, owner=0):
+                                    ok = False
+                            fixed.append(o)
+                            ref.step(o)
+                        if ok:
+                            out.append((cfg, fixed))
+    return out
+
+
+# ---- (H) heap-position-targeted histories: for every heap size and every array slot, the task sitting in that slot
+#      is suspended / moved later / moved earlier, then more tasks are installed and time goes on
+def heap_layout(installs):
+    """the array heapq builds for these pushes (time, task) in order; heapq is trusted (a pure function)"""
+    import heapq
+    h = []
+    for n, (t, i) in enumerate(installs):
+        heapq.heappush(h, (t, n, i))
+    return h
+
+
+def heap_time_layouts(rng, n, nrandom):
+    zig = [(k // 2 + 1) if k % 2 == 0 else (10 + k // 2) for k in range(n)]          # 1,10,2,11,3,12,...
+    lay = [list(range(1, n + 1)), list(range(n, 0, -1)), zig]
+    for _ in range(nrandom):
+        lay.append([rng.randrange(1, 22) for _ in range(n)])
+    return lay
+
+
+_HEAP_ARRAYS = {}
+
+
+def heap_arrays(n):
+    """every array of the keys 1..n that satisfies the heap condition a[(k-1)//2] < a[k]: 1, 1, 2, 3, 8, 20, 80, 210
+    arrays for n = 1..8.  Pushing the keys in array order builds exactly that array (nothing sifts)."""
+    if n not in _HEAP_ARRAYS:
+        res = []
+
+        def go(arr, left):
+            k = len(arr)
+            if k == n:
+                res.append(list(arr))
+                return
+            for v in sorted(left):
+                if k == 0 or arr[(k - 1) // 2] < v:
+                    arr.append(v); left.remove(v)
+                    go(arr, left)
+                    arr.pop(); left.add(v)
+        go([], set(range(1, n + 1)))
+        _HEAP_ARRAYS[n] = res
+    return _HEAP_ARRAYS[n]
+
+
+def heap_order_type_histories(rng, nmax, tie_nmax, sample_from=99, keep=1.0):
+    """[(cfg, [history, ...])]: for every heap size n <= nmax and EVERY heap-ordered arrangement of n distinct due
+    times (and, for n <= tie_nmax, the same arrangements with the times colliding in pairs), one history per array slot
+    and action: the task in that slot is suspended / moved behind everything / moved in front of everything; 2 and 6 more
+    tasks are installed; when everything is due the queue is emptied one poll at a time and by run_once"""
+    groups = []
+    for n in range(2, nmax + 1):
+        for arr in heap_arrays(n):
+            if n >= sample_from and rng.random() >= keep:
+                continue
+            for ties in ((False, True) if n <= tie_nmax else (False,)):
+                times = [2 * ((v + 1) // 2 if ties else v) for v in arr]
+                installs = [('install', i, times[i]) for i in range(n)]          # task i sits in slot i
+                extra = [('install', n + k, rng.randrange(0, 2 * n + 3)) for k in range(6)]
+                hs = []
+                for p in range(n):
+                    for ai, action in enumerate((('suspend', p), ('install', p, 2 * n + 4), ('install', p, 0))):
+                        # 2 or 6 further installs (a damaged spot stays inside the heap only while it is not the last entry)
+                        for ne in (2, 6):
+                            tail = [('poll',)] * (n + ne) if (p + ai) % 2 == 0 else [('poll',)] * (n // 2) + [('runonce',), ('poll',)]
+                            hs.append(installs + [action] + extra[:ne] + [('advance', 2 * n + 4)] + tail)
+                groups.append(([ONE] * (n + 6), hs))
+    return groups
+
+
+def heap_position_histories(rng, sizes, nrandom):
+    """[(cfg, [history, ...])]: one group per (heap size, time layout); a history per (slot, action)"""
+    groups = []
+    for n in sizes:
+        for times in heap_time_layouts(rng, n, nrandom):
+            installs = [('install', i, times[i]) for i in range(n)]
+            arr = heap_layout([(times[i], i) for i in range(n)])
+            later = [rng.randrange(1, 22) for _ in range(3)]
+            hs = []
+            for p in range(n):
+                victim = arr[p][2]
+                for action in (('suspend', victim), ('install', victim, 23), ('install', victim, 0), ('after', victim, 3)):
+                    ops = installs + [action] + [('install', n + k, later[k]) for k in range(3)]
+                    for _ in range(12):
+                        ops = ops + [('advance', 2), ('poll',), ('runonce',)]
+                    hs.append(ops)
+            groups.append(([ONE] * (n + 3), hs))
+    return groups
+
+
+def mk_group_case(kind, cfg, histories, mode='int', jit=1):
+    """one case = the outcomes of several histories over one configuration, concatenated"""
+    exp = []
+    for ops in histories:
+        e, _ = impl_outcome(cfg, ops, mode)
+        exp += e
+    coq = 'flat_map (fun ops => canon_run tc_id true %d (run_ops true %s %s st0 ops)) [%s]' % (
+        len(cfg), zc(jit), coq_cfg(cfg), ';'.join(coq_ops(h) for h in histories))
+    return Case(kind, coq, exp, key=(repr(cfg), repr(histories[0]), len(histories), 'group'), nontrivial=True,
+                desc={'cfg': repr(cfg), 'histories': repr(histories), 'mode': mode})
+
+
+# ---- (X) exception values: every shape x every kind of callable x every position of a batch; raising tasks
+def exception_value_histories():
+    """[(cfg, ops, kshift, xshift)]"""
+    out = []
+    NS, NK = len(XSHAPES), 6
+    for shape in range(NS):
+        for kind in range(5):                                   # a builtin leaf cannot raise
+            for pos in range(3):
+                # a batch of four: the function at `pos` raises with that shape and is that kind of callable; function 0
+                # defers one more (so that the queue "looks alive" when the rest of the batch is dropped)
+                batch = [(0, pos == 0, ((4, False, ()),)), (1, pos == 1, ()), (2, pos == 2, ()), (3, False, ())]
+                ksh, xsh = (kind - pos) % NK, (shape - pos) % NS
+                for loop in ('runonce', 'run'):
+                    out.append(([], [('defer', d) for d in batch] + [(loop,)], ksh, xsh))
+        # two raising functions of different shapes in one batch, the second deferred by the first
+        batch = [(0, True, ((3, True, ()),)), (1, False, ()), (2, True, ())]
+        out.append(([], [('defer', d) for d in batch] + [('runonce',)], shape % NK, shape))
+        out.append(([], [('defer', d) for d in batch] + [('run',)], (shape + 2) % NK, shape))
+        # a raising TASK (shape of task k = XSHAPES[(k + xshift + 5) % NS]) among tasks due at the same time, with deferred
+        # functions queued before and by the tasks
+        cfg = [(('one',), False, ((1, False, ()),)), (('one',), True, ((2, True, ()), (3, False, ()))), ONE]
+        pre = [('install', 0, 1), ('install', 1, 1), ('install', 2, 1), ('defer', (0, True, ())), ('advance', 1)]
+        xsh = (shape - 1 - 5) % NS
+        out.append((cfg, pre + [('runonce',), ('runonce',), ('runonce',)], shape % NK, xsh))
+        out.append((cfg, pre + [('run',)], (shape + 1) % NK, xsh))
+        out.append((cfg, pre + [('poll',), ('poll',), ('runonce',)], (shape + 2) % NK, xsh))
+    return out
 
 
 def deferred_cases(tier):
@@ -1258,10 +1682,38 @@ def cases(rng, tier):
             'functions, through run_once and run; (C) every pair of single-action callbacks over 2 tasks (15 x 15 - 1 configurations) with %s.'
             % ((4, ' plus 30% of length 5', 5, 'every prelude of the list x every letter') if big else
                (3, ' plus a quarter of length 4', 4, 'the 5 multi-task preludes and 8% of the one-letter preludes x every letter')))
+    # (H) every heap size x every array slot: the task in that slot suspended / moved, more installs, time goes on
+    for cfgh, hs in heap_position_histories(rng, range(2, 17), 1 if not big else 8):
+        out.append(mk_group_case('H-heap-slot-targeted', cfgh, hs))
+    for cfgh, hs in heap_order_type_histories(rng, 8 if not big else 9, 5 if not big else 8, sample_from=8 if not big else 9, keep=0.34 if not big else 0.5):
+        out.append(mk_group_case('H-heap-every-order-type', cfgh, hs))
+    # (X) exception values: every shape x kind of callable x position, raising tasks of every shape
+    # (the model has no exception values: one model run stands for every shape / kind of callable of the same history)
+    byhist = {}
+    for cfgx, opsx, ksh, xsh in exception_value_histories():
+        byhist.setdefault((repr(cfgx), repr(opsx)), (cfgx, opsx, []))[2].append((ksh, xsh))
+    for cfgx, opsx, variants in byhist.values():
+        exp = []
+        for ksh, xsh in variants:
+            exp += impl_outcome(cfgx, opsx, 'int', kshift=ksh, xshift=xsh)[0]
+        out.append(Case('X-exception-values', 'concat (repeat (%s) %d)' % (coq_run(cfgx, opsx, 'int', 1), len(variants)), exp,
+                        key=(repr(cfgx), repr(opsx), 'xvalues'), nontrivial=True,
+                        desc={'cfg': repr(cfgx), 'ops': repr(opsx), 'mode': 'int', 'variants (kshift, xshift)': repr(variants)}))
+    # (R) recurring tasks: installation histories with interval / offset as attributes (SchedIv.v)
+    for nth, (cfgr, opsr) in enumerate(recurring_R_grid()):
+        if big or nth % 3 == rng.randrange(3) or len(opsr) < 16:        # quick: a third of the grid (the direct predicate runs all of it)
+            out.append(mk_case2('R-recurring-install-grid', cfgr, opsr, JIT_B))
+    got = tries = 0
+    while got < (250 if not big else 2500) and tries < 50000:
+        tries += 1
+        g = gen_recurring_R(rng)
+        if g is not None:
+            got += 1
+            out.append(mk_case2('R-recurring-install-histories', g[0], g[1], JIT_B))
     # (A) random long histories
     for n in range(40 if tier != 'thorough' else 600):
         cfg, ops = random_history_A(rng)
-        out.append(mk_case('A-random-200', cfg, ops, 'int' if n % 2 == 0 else 'fine', 1))
+        out.append(mk_case('A-random-200', cfg, ops, 'int' if n % 2 == 0 else 'fine', 1, xshift=None if n % 4 < 2 else n))
     # (B) recurring
     want = 200 if tier != 'thorough' else 2000
     for epoch, mode, kind in ((False, 'tick', 'B-recurring-tick'), (True, 'slot', 'B-recurring-epoch-slot')):
@@ -1297,8 +1749,10 @@ def cases(rng, tier):
         ops = [('defer', d) for d in forest]
         # the callable kind of function k is KINDS[(k + shift) % 6]: over the masks every position is, in turn, a bound
         # method, a plain function, a lambda, a functools.partial, an instance with __call__ (and a builtin when it is a leaf)
-        out.append(mk_case('D-run_once', [], ops + [('runonce',)], 'int', 1, kshift=nth % 6))
-        out.append(mk_case('D-run', [], ops + [('run',)], 'int', 1, kshift=(nth + 3) % 6))
+        # the exception raised by function k has shape XSHAPES[(k + xshift) % len]; one run in three keeps Boom('<who>')
+        xs = None if nth % 3 == 0 else (nth * 7) % len(XSHAPES)
+        out.append(mk_case('D-run_once', [], ops + [('runonce',)], 'int', 1, kshift=nth % 6, xshift=xs))
+        out.append(mk_case('D-run', [], ops + [('run',)], 'int', 1, kshift=(nth + 3) % 6, xshift=None if xs is None else (xs + 11) % len(XSHAPES)))
     # deferred work submitted from (possibly raising) task callbacks that collide in time
     for _ in range(100 if tier != 'thorough' else 1000):
         nextid = [0]
@@ -1307,7 +1761,7 @@ def cases(rng, tier):
         rng.shuffle(ops)
         ops += [('defer', d) for d in gen_dfn_forest(rng, 3, nextid, 0.4)]
         ops += [('advance', rng.choice([1, 2])), rng.choice([('runonce',), ('run',)]), ('advance', 2), ('runonce',), ('run',)]
-        out.append(mk_case('D-from-tasks', cfg, ops, 'int', 1))
+        out.append(mk_case('D-from-tasks', cfg, ops, 'int', 1, kshift=rng.randrange(6), xshift=rng.choice([None, rng.randrange(len(XSHAPES))])))
     return out
 
 
@@ -1321,12 +1775,12 @@ def has_acts(cfg, ops):
         any(acts_of(d) for o in ops if o[0] == 'defer' for d in walk([o[1]]))
 
 
-def check_history(cfg, ops, mode, fails, stats, pre=(), kshift=0):
+def check_history(cfg, ops, mode, fails, stats, pre=(), kshift=0, xshift=None):
     """Weakest reading of C14 on one history.  Bookkeeping (not a scheduler): which task is pending
     with which due time and installation rank, which deferred functions were submitted."""
     if DEADLINE[0] is not None and time.time() > DEADLINE[0]:
         raise _Budget()
-    im = Impl(cfg, tf_of(mode), pre=pre, kshift=kshift)
+    im = Impl(cfg, tf_of(mode), pre=pre, kshift=kshift, xshift=xshift)
     pending = {}            # i -> [due or None, rank]
     rank = itertools.count()
     if pre:
@@ -1346,6 +1800,8 @@ def check_history(cfg, ops, mode, fails, stats, pre=(), kshift=0):
         desc['pre'] = repr(list(pre))
     if kshift:
         desc['kshift'] = kshift
+    if xshift is not None:
+        desc['xshift'] = xshift
     seen_trace = len(im.trace)
     calls_seen = []
     fired_any = False
@@ -1356,6 +1812,9 @@ def check_history(cfg, ops, mode, fails, stats, pre=(), kshift=0):
         d = dict(desc); d['kind'] = kind; d.update(kw)
         fails.append(d)
 
+    # interval / offset last handed to each recurring task (constructor, then install_task(interval=, offset=), refused or
+    # not): process_task can re-install the task after a firing only when that interval is a positive number
+    handed = {i: list(ctor_attrs(k[0])) for i, k in enumerate(cfg) if k[0][0] == 'rec'}
     acted = [False]          # a callback installed something during the current op
     rearmed = []             # recurring tasks re-installed by process_task although their callback suspended them
 
@@ -1374,6 +1833,8 @@ def check_history(cfg, ops, mode, fails, stats, pre=(), kshift=0):
                 i = cur[0][1]
                 if cfg[i][1] or cur[1]:
                     raised = True
+                elif cfg[i][0][0] == 'rec' and not (handed[i][0] and handed[i][0] > 0):
+                    raised = True                            # the re-install is refused (RuntimeError out of process_task)
                 elif cfg[i][0][0] == 'rec':
                     if cur[2]:
                         rearmed.append(i)
@@ -1443,9 +1904,17 @@ def check_history(cfg, ops, mode, fails, stats, pre=(), kshift=0):
                 raise
             return im
         errs = [e for e in im.trace[before:] if e[0] == 'err']
-        if k in ('install', 'after', 'reinstall', 'resume', 'burn') and not errs:
+        if k == 'installiv' and o[1] in handed:
+            if o[2] is not None: handed[o[1]][0] = o[2]
+            if o[3] is not None: handed[o[1]][1] = o[3]
+        for e in im.trace[before:]:
+            if e[0] == 'escape':
+                # the loops contain what a callback raises (`except Exception`): an exception that comes out of run /
+                # run_once / process_task's caller ends the loop for everybody else
+                fail('exception-escaped-loop', op=k, exc=e[1])
+        if k in ('install', 'after', 'reinstall', 'installiv', 'resume', 'burn') and not errs:
             pending[o[1]] = [im.tasks[o[1]].taskTime, next(rank)]
-            if k == 'reinstall' and cfg[o[1]][0][0] == 'rec' and not (im.tasks[o[1]].taskTime > im.NOW[0]):
+            if k in ('reinstall', 'installiv') and cfg[o[1]][0][0] == 'rec' and not (im.tasks[o[1]].taskTime > im.NOW[0]):
                 fail('recurring-first-slot-not-strictly-after-install', task=o[1])
         elif k == 'suspend':
             pending.pop(o[1], None)
@@ -1511,6 +1980,12 @@ def check_slots(cfg, ops, fails, stats):
     desc = desc_of(cfg, ops, 'tick')
     lastk, ontime = {}, {}
     seen = 0
+    # the interval / offset each recurring task was last installed with (bookkeeping from the calls made, not from the
+    # library's attributes): constructor values until install_task(interval=, offset=) succeeds with others
+    # `handed`: the values last handed over (a refused call counts: the library stores them before it checks);
+    # `inforce`: what was in `handed` at the last successful (re-)installation, i.e. the grid a pending entry lies on
+    handed = {i: list(ctor_attrs(k[0])) for i, k in enumerate(cfg) if k[0][0] == 'rec'}
+    inforce = {i: list(v) for i, v in handed.items()}
     for o in ops:
         try:
             im.step(o)
@@ -1521,7 +1996,10 @@ def check_slots(cfg, ops, fails, stats):
             if e[0] != 'fire' or cfg[e[1]][0][0] != 'rec':
                 continue
             _, i, due, at = e
-            iv, off = F(cfg[i][0][1], TICKS_PER_S), F(cfg[i][0][2], TICKS_PER_S)
+            if not inforce[i][0] or inforce[i][0] <= 0:
+                fails.append(dict(desc, kind='recurring-fired-without-interval', task=i, due=repr(due)))
+                continue
+            iv, off = F(inforce[i][0], TICKS_PER_S), F(inforce[i][1] or 0, TICKS_PER_S)
             k = round((F(due) - off) / iv)
             dev = abs(F(due) - (off + k * iv))
             if dev > F(1, 10 ** 6):
@@ -1532,11 +2010,24 @@ def check_slots(cfg, ops, fails, stats):
                 fails.append(dict(desc, kind='recurring-slot-skipped-on-time', task=i, k=k, prev=lastk[i]))
             lastk[i] = k
             ontime[i] = (at == due)
+            if inforce[i] != handed[i] and handed[i][0] and handed[i][0] > 0:
+                # process_task re-installs with what the task carries now (refused when that is not a valid interval:
+                # the task then keeps its old time, which resume_task may queue again)
+                inforce[i] = list(handed[i])
+                lastk.pop(i, None); ontime.pop(i, None)
             stats['nontrivial'].add(('slot', repr(cfg[i][0]), k))
+        refused = any(e[0] == 'err' for e in im.trace[seen:])
         seen = len(im.trace)
-        if o[0] == 'reinstall' and cfg[o[1]][0][0] == 'rec':
+        if o[0] == 'installiv' and cfg[o[1]][0][0] == 'rec':
+            if o[2] is not None: handed[o[1]][0] = o[2]
+            if o[3] is not None: handed[o[1]][1] = o[3]
+        if o[0] in ('reinstall', 'installiv') and cfg[o[1]][0][0] == 'rec' and not refused:
             i = o[1]
-            iv, off = F(cfg[i][0][1], TICKS_PER_S), F(cfg[i][0][2], TICKS_PER_S)
+            inforce[i] = list(handed[i])
+            if not inforce[i][0] or inforce[i][0] <= 0:
+                fails.append(dict(desc, kind='recurring-installed-without-interval', task=i))
+                continue
+            iv, off = F(inforce[i][0], TICKS_PER_S), F(inforce[i][1] or 0, TICKS_PER_S)
             t = im.tasks[i].taskTime
             k = round((F(t) - off) / iv)
             # least slot strictly after install + jitter, computed exactly from the float clock actually read
@@ -1611,7 +2102,7 @@ def _direct(rng, tier, focus, fails, stats, samples):
             check_history(cfg3, list(seq), 'int', fails, stats)
     for n in range(150 if not big else 3000):
         cfg, ops = random_history_A(rng)
-        check_history(cfg, ops, 'int' if n % 2 == 0 else 'fine', fails, stats)
+        check_history(cfg, ops, 'int' if n % 2 == 0 else 'fine', fails, stats, xshift=None if n % 4 < 2 else n)
     for cfgb, ops, mode in boundary_histories():
         check_history(cfgb, ops, mode, fails, stats)
     samples.append({'direct': 'pending-set bookkeeping over random histories of length 200', 'alphabet': repr(alpha)})
@@ -1638,8 +2129,33 @@ def _direct(rng, tier, focus, fails, stats, samples):
     for nth, forest in enumerate(deferred_cases(tier)):
         opsd = [('defer', d) for d in forest]
         for sh in ((nth % 6, (nth + 2) % 6, (nth + 4) % 6) if len(forest) <= 3 or big else ((nth + 1) % 6,)):
-            check_history([], opsd + [('runonce',)], 'int', fails, stats, kshift=sh)
-            check_history([], opsd + [('run',)], 'int', fails, stats, kshift=(sh + 3) % 6)
+            xs = (nth * 5 + sh) % len(XSHAPES)
+            check_history([], opsd + [('runonce',)], 'int', fails, stats, kshift=sh, xshift=xs)
+            check_history([], opsd + [('run',)], 'int', fails, stats, kshift=(sh + 3) % 6, xshift=(xs + 7) % len(XSHAPES))
+    # 3e. heap-slot-targeted histories, exception values, recurring installation histories
+    for cfgh, hs in heap_position_histories(rng, range(2, 17), 2 if not big else 10):
+        for opsh in hs:
+            check_history(cfgh, opsh, 'int', fails, stats)
+    for cfgh, hs in heap_order_type_histories(rng, 8 if not big else 9, 5 if not big else 8, sample_from=8 if not big else 9, keep=0.34 if not big else 0.5):
+        for opsh in hs:
+            check_history(cfgh, opsh, 'int', fails, stats)
+    samples.append({'direct': 'every heap-ordered arrangement of <= 8 pending tasks x every array slot x {suspend, move to the back, move to the front}, '
+                              'two more installs, queue emptied when everything is due; heap sizes 2..16 with structured / random due times, stepwise clock'})
+    for cfgx, opsx, ksh, xsh in exception_value_histories():
+        check_history(cfgx, opsx, 'int', fails, stats, kshift=ksh, xshift=xsh)
+    for cfgr, opsr in recurring_R_grid():
+        check_history(cfgr, opsr, 'tick', fails, stats)
+        check_slots(cfgr, opsr, fails, stats)
+    n = 0
+    while n < (300 if not big else 4000):
+        g = gen_recurring_R(rng)
+        if g is None:
+            continue
+        n += 1
+        check_history(g[0], g[1], 'tick', fails, stats)
+        check_slots(g[0], g[1], fails, stats)
+    samples.append({'direct': 'recurring installation histories: slots of the interval / offset the task was last installed with',
+                    'grid': 'interval by constructor / first install / later install x offset never / ctor / ctor 0 / install / reset to 0 x pending / suspended / resumed / re-installed'})
     # 3c. callbacks with scheduling actions; the recorded finding first
     selfsusp = [(('rec', 3 * TICKS_PER_S, 0), False, (), (('suspend', 0),))]
     check_history(selfsusp, [('advance', 777, 777), ('reinstall', 0), ('todue',), ('poll',), ('todue',), ('poll',)], 'tick', fails, stats)
@@ -1673,13 +2189,23 @@ def _direct(rng, tier, focus, fails, stats, samples):
         check_slots(g[0], g[1], fails, stats)
     # 5. around correspondence disagreements
     for d in focus:
-        if isinstance(d, dict) and 'ops' in d:
+        if isinstance(d, dict) and 'variants (kshift, xshift)' in d:
+            for ksh, xsh in ast.literal_eval(d['variants (kshift, xshift)']):
+                check_history(ast.literal_eval(d['cfg']), ast.literal_eval(d['ops']), 'int', fails, stats, kshift=ksh, xshift=xsh)
+        elif isinstance(d, dict) and 'ops' in d:
             try:
-                check_history(ast.literal_eval(d['cfg']), ast.literal_eval(d['ops']), d.get('mode', 'int'), fails, stats)
+                check_history(ast.literal_eval(d['cfg']), ast.literal_eval(d['ops']), d.get('mode', 'int'), fails, stats,
+                              kshift=int(d.get('kshift', 0)), xshift=d.get('xshift'))
+                if d.get('mode') == 'tick' and 'installiv' in d['ops']:
+                    check_slots(ast.literal_eval(d['cfg']), ast.literal_eval(d['ops']), fails, stats)
             except Hang:
                 raise
             except Exception as e:
                 fails.append({'kind': 'direct-crash-on-focus', 'exc': repr(e)[:200], 'cfg': d['cfg'], 'ops': d['ops']})
+        elif isinstance(d, dict) and 'histories' in d:
+            cfg = ast.literal_eval(d['cfg'])
+            for ops in ast.literal_eval(d['histories']):
+                check_history(cfg, ops, d.get('mode', 'int'), fails, stats)
         elif isinstance(d, dict) and 'prefix' in d:
             cfg = ast.literal_eval(d['cfg'])
             for ops in packed_histories(d):
@@ -1746,9 +2272,23 @@ def replay(payload):
         cfg, ops, mode = ast.literal_eval(f['cfg']), ast.literal_eval(f['ops']), f.get('mode', 'int')
         pre = ast.literal_eval(f['pre']) if 'pre' in f else ()
         ksh = int(f.get('kshift', 0))
-        if pre or ksh:
+        xsh = f.get('xshift')
+        if 'installiv' in f['ops']:
+            out, im = impl_outcome(cfg, ops, 'tick', attrs=True)
+            print('implementation trace:', im.trace)
+            print('implementation outcome:', out)
+            print('reference (port of the model):', ref_outcome(cfg, ops, 'tick', JIT_B, attrs=True)[0])
+            import core
+            got, err = core.coq_eval(COQ_IMPORTS, coq_run2(cfg, ops, JIT_B))
+            print('model (Coq, vm_compute):', got if got is not None else 'not evaluated: ' + err[-300:])
             fails, stats = [], {'evaluations': 0, 'nontrivial': set()}
-            im = check_history(cfg, ops, mode, fails, stats, pre=pre, kshift=ksh)
+            check_history(cfg, ops, 'tick', fails, stats)
+            check_slots(cfg, ops, fails, stats)
+            print('direct predicate:', fails or 'holds')
+            return
+        if pre or ksh or xsh is not None:
+            fails, stats = [], {'evaluations': 0, 'nontrivial': set()}
+            im = check_history(cfg, ops, mode, fails, stats, pre=pre, kshift=ksh, xshift=xsh)
             print('implementation trace:', im.trace)
             print('direct predicate:', fails or 'holds')
             return
